@@ -29,6 +29,52 @@ TABLE = {
                 "task parameters. Held on the executions observed.",
         "note": "Trusted base: torch.autograd.backward (the oracle the property names).",
     },
+    "C06": {
+        "level": "exploration",
+        "design_ref": "DESIGN.md §4 C06",
+        "technique": "runtime monitor: history + executable shadow model of .grad, storage-aliasing map, value/_version snapshots of all tensors",
+        "text": "Random histories of backward / mtl_backward / torch.autograd.backward calls and user edits of .grad over three retained "
+                "graphs on common leaves; after every step each .grad must equal a sequential shadow store (bit for bit for the slices "
+                "the recording proxy saw returned), all other tensors keep value and _version, no .grad shares storage with anything, "
+                "k-fold repetition accumulates k times. Held on the histories observed.",
+        "note": "Trusted base: the shadow model (10 lines), torch storage pointers; in-place vs out-of-place accumulation is observed, not judged.",
+    },
+    "C07": {
+        "level": "exploration",
+        "design_ref": "DESIGN.md §4 C07",
+        "technique": "runtime monitor: tensor hooks counting backward sweeps and their batch sizes; recorders on torch.vmap / torch.autograd.grad; vmap-hostile autograd.Function",
+        "text": "All (m,k) pairs m<=12, k in {None,1..m+2} (exhaustive) for backward and mtl_backward: tensor hooks must fire exactly "
+                "ceil(m/k) times with at most k rows each, never with a batched tensor when k=1 or m=1 (and torch.vmap must not be entered), "
+                "head graphs exactly once; values equal the k=1 result; a graph containing a vmap-incompatible Function must work with k=1.",
+        "note": "Trusted base: torch hook semantics (one firing per sweep reaching the tensor), functorch's is_batchedtensor.",
+    },
+    "C12": {
+        "level": "exploration",
+        "design_ref": "DESIGN.md §4 C12",
+        "technique": "runtime monitor: differential execution defaulted call vs explicit call with behavioural reference sets (autograd reachability on twin / cut-twin graphs)",
+        "text": "The defaulted call and the explicit call with the reference leaf sets must leave identical .grad on all leaves; when the "
+                "reference default sets of mtl_backward overlap the call must be rejected without any write. Programs include heads that "
+                "reach the trunk around the features through leaves, trunk intermediates and sibling outputs of multi-output nodes, deep chains.",
+        "note": "Trusted base: autograd.grad(..., allow_unused=True) is None <=> no differentiable path; symbolic tracker cross-check.",
+    },
+    "C13": {
+        "level": "exploration",
+        "design_ref": "DESIGN.md §4 C13",
+        "technique": "runtime monitor: history replayed on a twin graph with torch.autograd equivalents; node-by-node freed-signature of the autograd graph + literal follow-up probes",
+        "text": "All histories of <= 2 steps over 20 step kinds (exhaustive) and random ones of length 3: after every step the outcome, the "
+                "per-node saved-tensor state of the whole graph and follow-up differentiations must agree with the twin driven by "
+                "torch.autograd; with retain_graph=True everything stays live and an identical second call adds an identical update.",
+        "note": "Trusted base: getattr(node, '_saved_*') raises RuntimeError iff the node's saved tensors were released; heads share no node besides the features and every feature is used by a loss.",
+    },
+    "C20": {
+        "level": "fault_enumeration",
+        "design_ref": "DESIGN.md §4 C20",
+        "technique": "fault injection: every kind of invalid argument at every list position x fresh allocations; .grad object/bits/_version snapshots after the exception",
+        "text": "22 kinds of invalid arguments are injected at every position of every argument list (>= 8 fresh allocations each because "
+                "set order follows addresses) into otherwise valid calls with pre-existing .grad; whenever the call raises, every leaf's "
+                ".grad must be the same object with the same bits and _version.",
+        "note": "Only leaves' .grad is inspected. A call that is accepted instead of rejected is recorded, not judged (the property is conditional on rejection).",
+    },
 }
 _ALL = [f"C{i:02d}" for i in range(1, 21)]
 NOT_APPLICABLE = {p: "check not built yet in this session (planned, see DESIGN.md §4); not claimed until its monitor runs clean"
